@@ -1,0 +1,25 @@
+//go:build verif
+
+package badger
+
+import "github.com/glebziz/fs_db/internal/verifhook"
+
+// Set and Delete inside a running Badger transaction are observation points
+// for the verification harness (nothing is durable before the transaction
+// commits, so a process killed here must leave no trace of the transaction).
+
+func (t transaction) Set(key, val []byte) error {
+	if err := verifhook.Point("badger.txn.set", string(key)); err != nil {
+		return err
+	}
+
+	return t.Txn.Set(key, val)
+}
+
+func (t transaction) Delete(key []byte) error {
+	if err := verifhook.Point("badger.txn.delete", string(key)); err != nil {
+		return err
+	}
+
+	return t.Txn.Delete(key)
+}
